@@ -60,6 +60,7 @@ fn follow_up_tx(n: u32) -> Tx {
 }
 
 struct Outcome {
+    hnsw_internal: bool,
     fail: Option<(Option<&'static str>, String)>,
     vacuum_ok: bool,
     marked: Vec<u64>,
@@ -87,7 +88,16 @@ fn check_one(work: &Path, ops: &[Op], malform: Option<u64>, r: &mut Rng) -> Resu
     let vacuum_ok = vac.is_ok();
     let marked: Vec<u64> = if vacuum_ok { PageFile::read(&ndb_path(&b)).allocated().into_iter().filter(|i| *i >= 2).collect() } else { vec![] };
     let (case, npages) = coq_case(&src, malform.is_none(), vacuum_ok, &marked);
-    let mut out = Outcome { fail: None, vacuum_ok, marked };
+    // has an HNSW tree grown past its first page (root split -> the catalog must hold the new root)?
+    let hnsw_internal = {
+        let pf = PageFile::read(&ndb_path(&src));
+        let cat_root = u64le(pf.page(0), 72);
+        if cat_root >= 2 && cat_root < pf.n_pages() {
+            parse_catalog(pf.page(cat_root)).unwrap_or_default().iter().any(|(name, _, root)| name.starts_with("__sys_hnsw") && *root >= 2 && *root < pf.n_pages()
+                && matches!(parse_bt(pf.page(*root)), Some(BtNode::Internal { .. })))
+        } else { false }
+    };
+    let mut out = Outcome { hnsw_internal, fail: None, vacuum_ok, marked };
     if malform.is_some() {
         return Ok((out, case, npages));
     }
@@ -185,6 +195,16 @@ fn main() {
             Op::Tx(Tx { creates: vec![], edges: (0..600).map(|i| (i + 1, 1, i)).collect(), node_props: vec![], edge_props: vec![], tomb_edges: vec![], tomb_nodes: vec![], vectors: vec![(1, vec![1.0, 2.0, 3.0, 4.0])] }),
             Op::Compact,
         ],
+        // many vectors: the HNSW trees split their roots; vacuum has to keep the trees under the roots the catalog names now
+        {
+            let mut v = vec![Op::Tx(Tx { creates: (0..300).map(|i| (100 + i, 0)).collect(), edges: vec![(0, 0, 1)], node_props: vec![], edge_props: vec![], tomb_edges: vec![], tomb_nodes: vec![], vectors: vec![] })];
+            for b in 0..5u32 {
+                v.push(Op::Tx(Tx { creates: vec![], edges: vec![], node_props: vec![], edge_props: vec![], tomb_edges: vec![], tomb_nodes: vec![],
+                    vectors: (0..60u32).map(|i| (b * 60 + i, vec![(i % 7) as f32, (i % 5) as f32 - 2.0, b as f32, (i as f32) * 0.25])).collect() }));
+                if b == 2 { v.push(Op::Compact); v.push(Op::Reopen { close: true }); }
+            }
+            v
+        },
     ];
     let total = a.n;
     for idx in 0..total {
@@ -217,6 +237,7 @@ fn main() {
             Ok((out, case, npages)) => {
                 *hist.entry(format!("vacuum:{}", if out.vacuum_ok { "ok" } else { "err" })).or_insert(0) += 1;
                 if malform.is_some() { *hist.entry("malformed".into()).or_insert(0) += 1; }
+                if out.hnsw_internal { *hist.entry("hnsw-root-internal".into()).or_insert(0) += 1; }
                 *hist.entry(format!("pages:{}", match npages { 0..=9 => "<10", 10..=29 => "10-29", 30..=99 => "30-99", _ => ">=100" })).or_insert(0) += 1;
                 let has_seg = ops.iter().any(|o| matches!(o, Op::Compact));
                 if out.vacuum_ok && has_seg && malform.is_none() { distinct.insert(out.marked.clone()); }
